@@ -232,13 +232,14 @@ class BytesProfile:
 
     def base_stream(self, rnd, tag, opts):
         """A valid session recorded from a protocol run: (cfg, [(line bytes, live ids after it)])."""
-        o = {"timeout": 0, "w_audit": 0, "drain": True, "prop": "C08",
+        o = {"timeout": 0, "w_audit": 0, "drain": True, "prop": (opts or {}).get("prop", "C08"), "p_one_socket": 0,
              "faults": [f for f in ("cli_hurry", "cli_disconnect", "cli_reannounce_live", "cli_registered_early",
                                     "cli_pass_repeat", "cli_pass_illshaped", "xr_dup", "xr_stale", "xr_unlinked",
                                     "xr_notfinal", "xr_not_awaited", "xr_unknown_svc", "xr_forged") if rnd.random() < 0.5],
              "steps": rnd.choice([15, 40, 80, 160]), "p_logs": 0.2}
         plan, res = proto.run_generated(rnd, o, tag=tag)
         lines = [(l.encode("latin1"), live) for (l, live) in res.rawlines]
+        self.last_proto_plan = plan
         return plan["cfg"], lines, res
 
     def gen_run(self, rnd, opts, tier, tag):
@@ -246,7 +247,9 @@ class BytesProfile:
         cfg, lines, base = self.base_stream(rnd, tag + "G", opts)
         if base.viol or base.infra or not lines:
             base.nontrivial = False
-            return {"profile": "bytes", "mode": "base", "cfg": cfg, "lines": [l.decode("latin1") for l, _ in lines]}, base
+            # (the protocol run that was to be recorded went wrong itself: the plan replays that run)
+            return {"profile": "bytes", "mode": "base", "cfg": cfg, "lines": [l.decode("latin1") for l, _ in lines],
+                    "proto_plan": self.last_proto_plan}, base
         plan = {"profile": "bytes", "mode": mode, "cfg": cfg}
         S = [l for l, _ in lines]
         if mode == "indiff" and rnd.random() < 0.35:
@@ -296,6 +299,8 @@ class BytesProfile:
         res.transcript = [("conf", render_cfg(cfg, "."))]
         hs = []
         if mode == "base":
+            if plan.get("proto_plan"):
+                return proto.run_plan(plan["proto_plan"], tag=tag + "b")
             res.hash = "base"
             res.nontrivial = False
             return res
@@ -474,6 +479,9 @@ class BytesProfile:
 
     def shrink(self, plan, pred, budget):
         cur = copy.deepcopy(plan)
+        if cur["mode"] == "base" and cur.get("proto_plan"):
+            cur["proto_plan"] = runner.profile("proto").shrink(cur["proto_plan"], lambda pl: pred(dict(cur, proto_plan=pl)), budget)
+            return cur
         if cur["mode"] == "robust":
             def t(ch):
                 c = dict(cur)
